@@ -147,6 +147,18 @@ def run(ctx, idx):
         raise AnalysisError("Program.to_string vanished")
     funcs = K.helper_closure(idx, ts)
     byname = {f.name: f for f in funcs}
+    # ------------------------------------------------------------------ f: serialised text is final
+    ctx.rule("C15.f", "Serialised text is final: in Program.to_string text that already holds a serialised value is only inserted (format argument, +, join); it is never the format template and never rewritten by content (split / replace / strip / slicing / indentation helpers), so braces, line breaks and blanks inside a quoted value survive (taint analysis over to_string and its nested helpers).")
+    from . import texttaint
+
+    tf, ncalls = texttaint.analyse(getattr(ts, "node_orig", None) or ts.node, K.src)
+    ctx.floor("C15.f", "calls of serialiser helpers followed", ncalls, 4)
+    con_f = "%s::serialised-text-is-final" % ts.key
+    if tf:
+        for line_, kind_, text_ in tf[:3]:
+            ctx.violate("C15.f", con_f, K.rel(ts), line_, text_)
+    else:
+        ctx.hold("C15.f", con_f, K.rel(ts), ts.node.lineno, "serialised values are only inserted into the surrounding layout")
     L = grammar.Lexicon(idx)
     dfas = {r.token: RL.dfa(r.pattern) for r in L.rules if not r.ignored and r.name != "t_newline"}
     # ------------------------------------------------------------------ a
